@@ -67,7 +67,8 @@ func (p *Paragraph) WriteTo(out io.Writer) error {
 		 * as " ." instead. */
 		field := key + ": " + lines[0]
 		rest := lines[1:]
-		if strings.HasPrefix(lines[0], " ") || strings.HasPrefix(lines[0], "\t") {
+		if (strings.HasPrefix(lines[0], " ") || strings.HasPrefix(lines[0], "\t")) &&
+			strings.TrimSpace(lines[0]) != "" {
 			/* Blanks after the colon aren't part of the value, so a first
 			 * line that starts with one can't go next to the key. Such a
 			 * value is read from continuation lines only, so that's how
